@@ -247,7 +247,17 @@ class AbstractStrategy(
     def __eq__(self, other: object) -> bool:
         if not isinstance(other, AbstractStrategy):
             return NotImplemented
-        return self.__class__ == other.__class__ and self.__dict__ == other.__dict__
+        return self.__class__ == other.__class__ and self._settings() == (
+            other._settings()
+        )
+
+    def _settings(self) -> dict:
+        """
+        The attributes that define the strategy. `__orig_class__` is set by
+        `typing` when an instance is created through a subscripted generic,
+        e.g., `EmptyStrategy[A, B]()`, and says nothing about the strategy.
+        """
+        return {k: v for k, v in self.__dict__.items() if k != "__orig_class__"}
 
     def __repr__(self):
         return (
